@@ -27,7 +27,8 @@ ASSUMPTIONS = [
     "(synchronous memory read); values read while a capture is running are unspecified",
     "input values before cycle 0 are 0 (reset value of the delay registers)",
 ]
-BOUNDS = "sample_depth in {2,3,4} (thorough also 5, 8), samples_pretrigger 0..3, 3-bit samples, domain sync (one usb variant); " \
+BOUNDS = "quick: (depth,pretrigger) (2,0) (2,2) (3,1) (4,1) and (3,3) in domain usb; thorough: sample_depth {2,3,4} x " \
+         "samples_pretrigger 0..3 plus (5,1), (8,2), usb (3,3), usb (4,1); 3-bit samples; " \
          "BMC from reset K = 2*depth + pretrigger + 10 (two complete captures with read-back), everything free per cycle"
 OUTSIDE = "sample_depth 1 (zero-width write position); depths above 8; the serial/stream read-out front-ends " \
           "(SyncSerialILA, StreamILA, AsyncSerialILA) which only wrap this core"
@@ -130,8 +131,7 @@ def queries(tier):
     qs = []
     quick = tier == "quick"
     if quick:
-        cfgs = [(2, 0, "sync"), (2, 1, "sync"), (2, 2, "sync"), (3, 1, "sync"), (4, 0, "sync"), (4, 1, "sync"), (4, 2, "sync"),
-                (3, 3, "usb")]
+        cfgs = [(2, 0, "sync"), (2, 2, "sync"), (3, 1, "sync"), (4, 1, "sync"), (3, 3, "usb")]
     else:
         cfgs = [(d, p, "sync") for d in (2, 3, 4) for p in (0, 1, 2, 3)] + [(5, 1, "sync"), (8, 2, "sync"), (3, 3, "usb"), (4, 1, "usb")]
     for depth, pre, dom in cfgs:
@@ -142,8 +142,8 @@ def queries(tier):
                         desc=f"sample_depth {depth}, samples_pretrigger {pre}, domain {dom}: inputs, trigger and read address "
                              "free every cycle; sampling/complete/read-back against the ghost recorder; reachability twins: "
                              "complete, read-back of first/last position, ignored trigger, second capture"))
-    for depth, pre, dom in ((2, 1, "sync"), (4, 2, "sync"), (3, 3, "usb")):
+    for depth, pre, dom in (((4, 1, "sync"), (3, 3, "usb")) if quick else ((2, 1, "sync"), (4, 2, "sync"), (3, 3, "usb"))):
         f = (lambda depth=depth, pre=pre, dom=dom: ILAHarness(depth, pre, dom))
         qs.append(Query(f"cosim_d{depth}p{pre}{'' if dom == 'sync' else dom}", f, 0, kind="cosim",
-                        cosim_cycles=200 if quick else 1000))
+                        cosim_cycles=100 if quick else 1000))
     return qs
